@@ -118,8 +118,15 @@ class extract_visitor(NodeVisitor):
 
         body_start = self.make_flow('for', [cur])
         for nn, _idx in get_indexes_for_target(node.target, [], []):
-            name = nn  # type: ast.Name # type: ignore[assignment]
-            body_start.add_name(AssignedName(name.id, np(node.body[0]), np(name), node.iter))
+            if isinstance(nn, Attribute):
+                self.top.add_attr_assign(body_start.scope, nn, None)  # type: ignore[arg-type]
+            elif isinstance(nn, UNSUPPORTED_ASSIGMENTS):
+                continue
+            else:
+                name = nn  # type: ast.Name # type: ignore[assignment]
+                body_start.add_name(AssignedName(name.id, np(node.body[0]), np(name), node.iter))
+        # names read inside attribute / subscript targets
+        self.visit_in_flow(node.target, body_start)
         body = self.visit_in_flow(node.body, body_start)
         body_start.loop(body)
 
@@ -271,7 +278,10 @@ class extract_visitor(NodeVisitor):
 
     def visit_Return(self, node):
         # type: (ast.Return) -> None
-        self.flow.scope.returns.append(node.value)  # type: ignore[attr-defined]
+        # `return` outside a function is rejected by the compiler, not by the parser
+        returns = getattr(self.flow.scope, 'returns', None)
+        if returns is not None:
+            returns.append(node.value)
         self.generic_visit(node)
 
     def visit_ListComp(self, node):
@@ -282,9 +292,15 @@ class extract_visitor(NodeVisitor):
             pp = p
             p = self.make_flow('comp', [p])
             for nn, _idx in get_indexes_for_target(g.target, [], []):
-                name = nn  # type: ast.Name # type: ignore[assignment]
-                name.flow = pp  # type: ignore[attr-defined]
-                p.add_name(AssignedName(name.id, np(node), np(name), g.iter))
+                if isinstance(nn, Attribute):
+                    self.top.add_attr_assign(p.scope, nn, None)  # type: ignore[arg-type]
+                elif isinstance(nn, UNSUPPORTED_ASSIGMENTS):
+                    continue
+                else:
+                    name = nn  # type: ast.Name # type: ignore[assignment]
+                    name.flow = pp  # type: ignore[attr-defined]
+                    p.add_name(AssignedName(name.id, np(node), np(name), g.iter))
+            self.visit_in_flow(g.target, p)
 
             if g.ifs:
                 for inode in g.ifs:
@@ -315,8 +331,13 @@ class extract_visitor(NodeVisitor):
                 # a target is bound as soon as its own item is entered: later items may read it
                 loc = get_expr_end(it.optional_vars)
                 for nn, _idx in get_indexes_for_target(it.optional_vars, [], []):
-                    name = nn  # type: ast.Name # type: ignore[assignment]
-                    self.flow.add_name(AssignedName(name.id, loc, np(name), node))
+                    if isinstance(nn, Attribute):
+                        self.top.add_attr_assign(self.flow.scope, nn, None)  # type: ignore[arg-type]
+                    elif isinstance(nn, UNSUPPORTED_ASSIGMENTS):
+                        continue
+                    else:
+                        name = nn  # type: ast.Name # type: ignore[assignment]
+                        self.flow.add_name(AssignedName(name.id, loc, np(name), node))
 
         self.generic_visit(node)
 
